@@ -435,7 +435,9 @@ func recoverSign(ctx context.Context, signc chan *vss.Signature, suite suites.Su
 						}
 						continue
 					}
-					x, y := sign.ToBigInt()
+					// the coordinates of the recovered group signature (the share that happened to
+					// arrive last may carry a signature too short to split)
+					x, y := (&vss.Signature{Signature: sig}).ToBigInt()
 					logger.Info(fmt.Sprintf("Verify success signature %s %s", x.String(), y.String()))
 
 					//Contract will append sender address to content to verify if it is a right submitter
